@@ -20,6 +20,8 @@ func init() {
 			c.HoverUnderContains(ob6)
 			ob7 := c.R.Ob("C19.7", "ctrl/names", "use -> declaration resolution recorded on the hit edge for the node looked up", 4)
 			c.NameBookkeeping(ob7)
+			ob9 := c.R.Ob("C19.9", "origin/node-identity", "the expression checker is handed AST nodes, never the address of a local copy of one (resolutions are keyed by node address)", 1)
+			c.NodesNotCopiedBeforeChecking(ob9)
 			ob8 := c.R.Ob("C19.8", "cmp-pattern", "position ordering is lexicographic on (line, character) and containment is start <= position <= end", 2)
 			c.PositionOrder(ob8)
 		},
@@ -37,6 +39,8 @@ func init() {
 			c.Mapping(ob3, map[string]bool{relCmd: true})
 			ob4 := c.R.Ob("C20.4", "numtext/N2-machine", "neither the CLI nor the value renderers it prints through narrow or rebuild amounts through 64-bit machine integers", 0)
 			c.BoundedArithmeticOnNumerals(ob4, map[string]bool{relCmd: true, relInterp: true, "": true})
+			ob6 := c.R.Ob("C20.6", "origin/verbatim", "no message is used as a format string by the CLI", 1)
+			c.FormatStringsConstant(ob6, relCmd)
 			obNumRender(c, "C20.5")
 			obTypeTables(c, "C20.5b")
 		},
